@@ -69,7 +69,7 @@ def body(spec):
         "label_lt": lambda: f'fuzz.labelled(if x < {t} {{ @"small" }} else {{ @"large" }}, x < {a})',
         "label_stmt": lambda: f'fuzz.label(if x < {t} {{ @"small" }} else {{ @"large" }})\n  fuzz.label(@"any")\n  x < {a}',
         "trace_label": lambda: f'fuzz.trace_label(if x < {t} {{ @"small" }} else {{ @"large" }}, x < {a})',
-        "label_then_crash": lambda: f'fuzz.labelled(@"seen", if x >= {a} {{\n    fail @"boom"\n  }} else {{\n    True\n  }})',
+        "label_then_crash": lambda: f'fuzz.label(@"seen")\n  if x >= {a} {{\n    fail @"boom"\n  }} else {{\n    True\n  }}',
         "neigh": lambda: "fuzz.no_equal_neighbours(x)",
         "sum_lt": lambda: f"fuzz.sum(x) < {a}",
         "len_lt": lambda: f"fuzz.length(x) < {a}",
@@ -100,7 +100,12 @@ EXPECTATIONS = ["", "fail", "fail once"]
 def source(fuzzer, spec, expectation):
     expr = FUZZERS[fuzzer][0]
     kw = f" {expectation}" if expectation else ""
-    return f"use fuzz\n\ntest prop(x via {expr}){kw} {{\n  {body(spec)}\n}}\n"
+    pre = ""
+    if "fn(" in expr:
+        # the `via` grammar has no anonymous functions: name the fuzzer
+        pre = f"fn the_fuzzer() {{\n  {expr}\n}}\n\n"
+        expr = "the_fuzzer()"
+    return f"use fuzz\n\n{pre}test prop(x via {expr}){kw} {{\n  {body(spec)}\n}}\n"
 
 
 def all_specs(fuzzer):
